@@ -356,14 +356,17 @@ def snapshot_oracle(sc):
 
 
 def teardown_marks(sc):
-    b = d = None
+    b = d = k = None
     for j, st in enumerate(sc["trace"]):
         if st["op"].get("op") == "teardown":
-            if st["op"].get("phase") == "begin":
+            ph = st["op"].get("phase")
+            if ph == "begin":
                 b = j
-            elif st["op"].get("phase") == "dropped":
+            elif ph == "dropped":
                 d = j
-    return b, d
+            elif ph == "kick":
+                k = j
+    return b, d, k
 
 
 def conn_result(sc, upto=None):
@@ -378,55 +381,130 @@ def conn_result(sc, upto=None):
     return r
 
 
+def local_reset_unflushed(s):
+    return s["state"].startswith("Closed(Error(Reset(") and ("Library" in s["state"] or "User" in s["state"]) and not rec_closed(s)
+
+
+def reset_counter_leak(sc):
+    """First step at which num_local_reset_streams exceeds the number of records awaiting reset expiry by more than before.
+    Returns (step index, is_known_class).  Known class KF-C19-1: a locally reset record left the expiry queue while its RST_STREAM
+    was still queued (record not closed): on the snapshots, a record in state Closed(Error(Reset(_, _, User|Library))) that does not
+    await expiry is present (or was present, unflushed and expiring, in the previous snapshot); when hook events are recorded the
+    exact mechanism is required as well: a transition_after with is_reset_counted, not pending expiry, and is_closed() false."""
+    surplus = 0
+    prev = None
+    for j, st in enumerate(sc["trace"]):
+        sn = st.get("snap")
+        if not sn:
+            continue
+        n = sn["conn"]["num_local_reset_streams"] - sum(1 for s in sn["streams"] if s["is_pending_reset_expiration"])
+        if n > surplus:
+            def local_reset(s):
+                return s["state"].startswith("Closed(Error(Reset(") and ("Library" in s["state"] or "User" in s["state"])
+            known = any(local_reset(s) and not s["is_pending_reset_expiration"] for s in sn["streams"])
+            if not known and prev is not None:
+                known = any(local_reset(s) and s["is_pending_reset_expiration"] and not rec_closed(s) for s in prev["streams"])
+            evs = st.get("ev", [])
+            if evs:
+                # the record may be created, expired, flushed and removed within one step (no snapshot shows it)
+                known = any(e[0] == "counts.transition_after" and e[7] == 1 and e[6] == 0 and e[5] == 0 for e in evs)
+            return j, known
+        surplus = max(surplus, n)
+        prev = sn
+    return None, False
+
+
+def last_ref_drop_step(sc, upto):
+    """Index of the last step before `upto` at which Inner.refs fell to 1, and whether the connection task was woken there."""
+    prev = None
+    hit = None
+    for j, st in enumerate(sc["trace"][:upto]):
+        sn = st.get("snap")
+        if not sn:
+            continue
+        r = sn["conn"]["refs"]
+        if prev is not None and prev > 1 and r == 1:
+            hit = (j, 1 in st.get("wakes", []), sn["conn"].get("conn_task"))
+        prev = r
+    return hit
+
+
 def quiescence_oracle(sc):
     """Profile idle: after every handle was dropped and the connection settled.
-    Server (connection kept): the store holds only records awaiting reset expiry (at most max_local_reset_streams) or never
-    accepted by the application; the counters are back to idle values.
-    Client: the connection wrote GOAWAY(NO_ERROR), shut the transport down and returned Ok."""
-    b, d = teardown_marks(sc)
-    if d is None or not sc.get("settled", True):
-        return None, "no-teardown"
+    Server (connection kept): the store holds only records awaiting reset expiry (at most max_local_reset_streams), records never
+    accepted by the application, or records that still have frames to send; the counters are back to idle values.
+    Client: the connection wrote GOAWAY(NO_ERROR), shut the transport down and returned Ok - without being polled unasked.
+    Returns (violation | None, known-finding text | None, status)."""
+    b, d, k = teardown_marks(sc)
+    if d is None or k is None:
+        return None, None, "no-teardown"
     client = sc["cfg"]["role"] == "client"
     before = conn_result(sc, b)
+    at_kick = conn_result(sc, k)
     final = conn_result(sc)
     last = sc["trace"][-1]
     if any(isinstance(st["res"], dict) and "panic" in st["res"] for st in sc["trace"]):
-        return None, "panicked"
+        return None, None, "panicked"
+    leak_step, leak_known = reset_counter_leak(sc)
+    known = None
+    if leak_step is not None:
+        if not leak_known:
+            return {"why": "num_local_reset_streams exceeds the number of records awaiting reset expiry (counter leak)", "step": sc["trace"][leak_step]["i"]}, None, "checked"
+        known = "KF-C19-1 reset-expiry-before-rst-flushed: num_local_reset_streams not given back"
     if client:
         if before is not None and before != "Ready(Ok)":
-            return None, "failed-before-teardown"
+            return None, known, "failed-before-teardown"
         goaways = [f for st in sc["trace"] for f in st["out"] if f["t"] == "GOAWAY"]
-        if final != "Ready(Ok)":
-            return {"why": "all request handles and streams are gone but the client connection did not complete with Ok", "result": final,
-                    "goaways": goaways[-2:]}, "checked"
+        if final is not None and final != "Ready(Ok)":
+            return None, known, "failed-during-teardown"      # a connection error: not the idle-close claim
+        if final is None:
+            return {"why": "all request handles and streams are gone but the client connection never completed", "result": final,
+                    "goaways": goaways[-2:]}, known, "checked"
         if not goaways or goaways[-1].get("code") != 0:
-            return {"why": "idle client connection completed without GOAWAY(NO_ERROR)", "goaways": goaways[-2:]}, "checked"
+            return {"why": "idle client connection completed without GOAWAY(NO_ERROR)", "goaways": goaways[-2:]}, known, "checked"
         if not last["io"]["shutdown"]:
-            return {"why": "idle client connection completed without shutting the transport down"}, "checked"
-        return None, "checked"
+            return {"why": "idle client connection completed without shutting the transport down"}, known, "checked"
+        if at_kick is None:
+            # completed only because of the unsolicited poll: a lost wake-up.  Known class KF-C19-2: Inner.refs fell to 1 by the drop
+            # of a stream handle whose stream was not closed (drop_stream_ref wakes only for closed streams), task registered, not woken
+            hit = last_ref_drop_step(sc, k)
+            if hit is not None and not hit[1]:
+                j = hit[0]
+                opn = sc["trace"][j]["op"].get("op", "")
+                prev = next((sc["trace"][x]["snap"] for x in range(j - 1, -1, -1) if sc["trace"][x].get("snap")), None)
+                open_before = prev is not None and any(s["ref_count"] > 0 and not rec_closed(s) for s in prev["streams"])
+                if opn.startswith("drop_") and open_before:
+                    return None, "KF-C19-2 last-handle-drop-without-wake: idle client connection closes only when polled by someone else", "checked"
+            return {"why": "the idle client connection completed only after an unsolicited poll (lost wake-up of the connection task)",
+                    "refs_fell_to_1_at": sc["trace"][hit[0]]["i"] if hit else None}, known, "checked"
+        return None, known, "checked"
     if final is not None:
-        return None, "server-ended"
+        return None, known, "server-ended"
     sn = last.get("snap")
     if not sn:
-        return None, "no-snapshot"
+        return None, known, "no-snapshot"
     c = sn["conn"]
     if c.get("conn_error"):
-        return None, "server-failed"
+        return None, known, "server-failed"
     expiring = [s for s in sn["streams"] if s["is_pending_reset_expiration"]]
     unaccepted = [s for s in sn["streams"] if s["is_pending_accept"]]
     other = [s for s in sn["streams"] if rec_closed(s) and not s["is_pending_reset_expiration"] and not s["is_pending_accept"]]
     if other:
         s = other[0]
         return {"why": "all handles dropped and the connection is quiescent, but a closed record that neither awaits reset expiry nor "
-                       "acceptance is still stored", "stream": s["id"], "state": s["state"], "reasons": rec_reasons(s), "ref_count": s["ref_count"]}, "checked"
+                       "acceptance is still stored", "stream": s["id"], "state": s["state"], "reasons": rec_reasons(s), "ref_count": s["ref_count"]}, known, "checked"
     if len(expiring) > max(c["max_local_reset_streams"], 0):
-        return {"why": "more records await reset expiry than max_local_reset_streams", "n": len(expiring), "max": c["max_local_reset_streams"]}, "checked"
-    if c["num_local_reset_streams"] != len(expiring):
-        return {"why": "num_local_reset_streams differs from the records awaiting expiry", "num": c["num_local_reset_streams"], "records": len(expiring)}, "checked"
-    if c["num_send_streams"] != 0 or c["num_recv_streams"] != sum(1 for s in unaccepted if s["is_counted"]):
-        return {"why": "concurrency counters not back to idle values at quiescence", "num_send": c["num_send_streams"], "num_recv": c["num_recv_streams"],
-                "unaccepted_counted": sum(1 for s in unaccepted if s["is_counted"])}, "checked"
-    return None, "checked"
+        return {"why": "more records await reset expiry than max_local_reset_streams", "n": len(expiring), "max": c["max_local_reset_streams"]}, known, "checked"
+    if leak_step is None and c["num_local_reset_streams"] != len(expiring):
+        return {"why": "num_local_reset_streams differs from the records awaiting expiry", "num": c["num_local_reset_streams"], "records": len(expiring)}, known, "checked"
+    live_local = sum(1 for s in sn["streams"] if s["is_counted"] and (s["id"] % 2 == 0))
+    live_remote = sum(1 for s in sn["streams"] if s["is_counted"] and (s["id"] % 2 == 1))
+    if c["num_send_streams"] != live_local or c["num_recv_streams"] != live_remote:
+        return {"why": "concurrency counters differ from the counted records at quiescence", "num_send": c["num_send_streams"], "num_recv": c["num_recv_streams"],
+                "counted_local": live_local, "counted_remote": live_remote}, known, "checked"
+    if any(s["is_counted"] and rec_closed(s) for s in sn["streams"]):
+        return {"why": "a closed record still occupies a concurrency slot at quiescence"}, known, "checked"
+    return None, known, "checked"
 
 
 def idle_exact_oracle(sc):
@@ -456,8 +534,11 @@ def oracle_store(rep, scs):
     nontriv = 0
     for sc in scs:
         v = snapshot_oracle(sc) or idle_exact_oracle(sc)
-        qv, why = quiescence_oracle(sc)
+        qv, known, why = quiescence_oracle(sc)
         stats[why] = stats.get(why, 0) + 1
+        if known:
+            rep.known(known)
+            stats["known"] = stats.get("known", 0) + 1
         v = v or qv
         if why == "checked":
             nontriv += 1
